@@ -115,7 +115,7 @@ PROPS = {
         "assumptions": ["no mapping/filters/--diff in this check's flag vectors (cells are then per-account cumulative values)"],
     },
     "C09": {
-        "lean": ["Knut.Properties.C09", "Knut.Properties.C09Decimal", "Knut.Properties.C09Text", "Knut.Properties.C09Journal", "Knut.FactsAgree.TransTransaction"],
+        "lean": ["Knut.Properties.C09", "Knut.Properties.C09Decimal", "Knut.Properties.C09Text", "Knut.Properties.C09Journal", "Knut.Properties.C09Cmd", "Knut.FactsAgree.TransTransaction"],
         "level": "proof",
         "claim": "Proof (all three clauses, for every printable journal, on the model of the commands for a journal that is one file) + full correspondence. Properties/C09Journal.lean: C09_print_accepted (the printed text loads and the checker gives the reloaded journal the verdict of the original), C09_print_fixpoint / C09_print_rejected (knut print on the printed text of an accepted printable journal writes that text; a rejected one stays rejected), C09_print_idempotent(_bytes) (print is idempotent on its own output), C09_reports_equal (knut balance under ANY flag vector, valued or not, no restriction on price directives, gives the same bytes or fails alike on the directives loaded from the printed text and on the directives the journal was built from), C09_verdict_equal. Printable (PrintableDir / PrintableJournal, decidable) = what the journal syntax can carry: dates 0000..9999, names of Unicode letters/digits, decimal amounts, assertions with at least one balance, descriptions without a double quote, transactions as transaction.Create builds them. UNCONDITIONAL for texts: C09_loaded_printable (every directive the loader returns from ANY byte string is PrintableDir: the parser's soundness gives field tokens of the right lexical classes, time.Parse / NewFromString / the registry / transaction.Create incl. @accrue expansion give the rest; Proofs/PrintSound.lean), hence C09_print_idempotent: for EVERY input text, if knut print succeeds on it then knut print on its output writes the same bytes; C09_file_reports_equal: check verdict and every balance report (any flags) of the printed file equal those of the input file. Open: include trees are outside printFile (one file; C05 covers layout independence); the second elaboration model of Model/Commands.lean (Cmd.runPrint, used by C14) is not linked to FromSyntax.loadText by a theorem. Proved (all bookings, all amounts): C09_booking_normal_form (rebuilding the booking that print writes from the debit-side posting yields "
                  "the identical posting pair), C09_printed_quantity_nonneg, C09_reprint_same_line, C09_targets_line. Properties/C09Decimal.lean: C09_dec_scaled_roundtrip, C09_dec_string_roundtrip (parseDec (showDec r) = r for every decimal rational), C09_dec_string_shortest, "
